@@ -54,7 +54,8 @@ CLAIMS = {
              "followed by an error reply; R04.4 every reply-producing site reaches write_all or the is_empty edge before the next "
              "read; R04.6 recogniser offsets equal the matched literal's length. Known findings: HEADER_LEN 14 vs 13 (x4) and the "
              "below-threshold drop (x2, keyed by whether the recogniser is live). Does not decide reply contents. R04.4 also requires that bytes handed to the socket are cleared from write_buffer before it is reused."
-             ' R04.7 the decoder never rejects a frame before it is complete (a rejection that a longer prefix would withdraw breaks segmentation independence).',
+             ' R04.7 the decoder never rejects a frame before it is complete (a rejection that a longer prefix would withdraw breaks segmentation independence).'
+             ' R04.8 from the append of freshly read bytes every path to the next read passes the decoder.',
         technique="CFG path search with exempt edges (consume=>reply pairing), dominance, constant/literal agreement from evaluated MIR constants",
         ref="DESIGN.md §3 C04"),
     "C17": dict(
@@ -74,7 +75,8 @@ CLAIMS = {
              "collection is followed by an emptiness test + removal; R01.6 a create-if-absent is followed on every path by an add "
              "(per loop iteration), a removal, or the wrong-type exit; R01.7 seconds/milliseconds sibling commands have equal "
              "decision skeletons. Does not decide equality of replies with Redis. R01.8 a conditional command refuses (0/nil decided by a keyspace test) before any write."
-             ' R01.9 index windows (LTRIM/LRANGE/GETRANGE-style start/stop) are clamped the same way by the range reader and the trimming writer; R01.10 a client-supplied integer is negated only with checked_neg and an error on overflow.',
+             ' R01.9 index windows (LTRIM/LRANGE/GETRANGE-style start/stop) are clamped the same way by the range reader and the trimming writer; R01.10 a client-supplied integer is negated only with checked_neg and an error on overflow.'
+             ' R01.11 inside a loop that mutates a stored collection no branch is decided by an emptiness/size/membership answer obtained from that collection before the loop.',
         technique="MIR provenance/dominance pairing rules over all executor handlers, path search with exempt edges, sibling CFG-skeleton comparison",
         ref="DESIGN.md §3 C01"),
     "C03": dict(
@@ -129,7 +131,8 @@ CLAIMS = {
              "executor's post-state (3 known findings: SET x2, HSET); R06.2 the reply of a re-materialising command that can fail (decided from its handler's error sites and the "
              "options its constructor fixes) must be inspected (5 known findings: HSET/HDEL/SETEX); R06.3 remote ingest = clock update + merge when a local value exists; R06.5 after the merge, executor updates "
              "are decided from the merged value only (no stale-delta shortcut); R06.6 stamps are never ordered by .time alone. Does not "
-             "decide convergence over delivery schedules. R06.3 also requires the ingest to store on every path; R06.7 every local delta reaches queue_deltas when replication is on and every iteration over a received batch forwards its delta to the owner shard.",
+             "decide convergence over delivery schedules. R06.3 also requires the ingest to store on every path; R06.7 every local delta reaches queue_deltas when replication is on and every iteration over a received batch forwards its delta to the owner shard."
+             ' R06.8 the merge functions applied to delivered updates carry the C07 lattice certificate (shared; one known finding: type-mismatch selection is not associative, witnessed as a divergence of two replicas). R06.5 also follows conditions into combinator closures and rejects decisions taken on a pre-merge snapshot.',
         technique="MIR value provenance (post-state vs command operand), unused-result detection, branch-condition root analysis, comparison-shape scan",
         ref="DESIGN.md §3 C06"),
     "C18": dict(
@@ -139,7 +142,8 @@ CLAIMS = {
              "R18.3 a sync applies A->B and B->A through apply_remote_deltas after both selections; R18.4 digest construction and "
              "selection use KeyDigest::bucket with the configured depth; R18.6 selection filters on bucket membership only. Does not "
              "decide termination under the per-round limit. R18.1 also applies rule H to every digest-computing function; R18.2 requires the digest to keep covering stamp and LWW payload; R18.3 forbids narrowing the selection before it is applied."
-             ' R18.7 the per-round limit is applied after the divergent-bucket filter, never to the scan.',
+             ' R18.7 the per-round limit is applied after the divergent-bucket filter, never to the scan.'
+             ' R18.8 a bounded selection (`take(max_keys_per_sync)` over the key map) needs a resume point or a peer-dependent filter in front of it (2 known findings with a witness: the sync never completes when the differing keys lie behind the cut).',
         technique="hash-order-leak rule (unordered iteration -> order-sensitive sink needs a sort), operator-shape scan, field-coverage set comparison, provenance of sync endpoints",
         ref="DESIGN.md §3 C18"),
     "C19": dict(
@@ -170,7 +174,8 @@ CLAIMS = {
              "wrappers, the actor's executor field is only projected inside the actor impl, each constructed actor is moved into one "
              "tokio::spawn(run); R02.2 the actor run loops await only rx.recv(); R02.3 routing agreement (shared with C03); R02.4 a "
              "pooled response slot is released only after its reply was awaited or the send failed, and no release-on-Drop owner holds "
-             "it across the await; R02.5 positional gathers use submission order. Does not decide the linearizability verdict.",
+             "it across the await; R02.5 positional gathers use submission order. Does not decide the linearizability verdict."
+             ' R02.6 an arm of ShardedActorState::execute for a command that is neither multi-key nor keyspace-wide sends at most one shard message on any path; R02.7 the batched pipelines queue every key of the batch and fill reply slots only from shard responses.',
         technique="type scan over ADT/local types, who-may-access field scan, await-site enumeration in coroutine MIR, dominance by await completion / failed-send edges",
         ref="DESIGN.md §3 C02"),
     "C14": dict(
